@@ -1,6 +1,9 @@
 mod core;
+mod driver;
 mod explore;
 mod graph;
+mod plan;
+mod supervisor;
 mod val;
 
 use crate::core::*;
@@ -14,6 +17,23 @@ fn main() {
     let args: Vec<String> = std::env::args().collect();
     match args.get(1).map(|s| s.as_str()) {
         Some("dev") => dev(&args[2..]),
+        Some("check") => {
+            let tier = if args.get(3).map(|s| s.as_str()) == Some("thorough") { plan::Tier::Thorough } else { plan::Tier::Quick };
+            std::process::exit(supervisor::check(&args[2], tier));
+        }
+        Some("worker") => std::process::exit(supervisor::worker(&args[2..])),
+        Some("replay") => std::process::exit(supervisor::replay_file(&args[2])),
+        Some("list") => {
+            for (i, p) in graph::families::family(&args[2], plan::Tier::Quick).iter().enumerate() {
+                let j = p.to_json();
+                println!("{i}: {} observable={} pinned={}", j["nodes"], j["alphabet"]["observable"], j["pinned"]);
+            }
+        }
+        Some("count") => {
+            // sizes of a family, for planning
+            let tier = plan::Tier::Quick;
+            println!("{} programs", graph::families::family(&args[2], tier).len());
+        }
         _ => {
             eprintln!("usage: hx dev <catalogue-name|grammarN> <depth>");
             std::process::exit(2);
@@ -36,7 +56,17 @@ fn dev(args: &[String]) {
         deadline: None,
         congruence_depth: 3,
     };
-    let progs: Vec<graph::prog::Prog> = if let Some(n) = which.strip_prefix("grammar") {
+    let progs: Vec<graph::prog::Prog> = if which.contains('/') {
+        let (fam, idx) = match which.split_once('#') {
+            Some((f, i)) => (f, Some(i.parse::<usize>().unwrap())),
+            None => (which, None),
+        };
+        let all = families::family(fam, plan::Tier::Quick);
+        match idx {
+            Some(i) => vec![all[i].clone()],
+            None => all,
+        }
+    } else if let Some(n) = which.strip_prefix("grammar") {
         let n: usize = n.parse().unwrap();
         families::grammar(&families::Menu::core(), 2, n)
     } else {
